@@ -137,7 +137,10 @@ def firstNonNil : List (Option Entry) → Option Entry
   | some e :: _ => some e
   | none :: es => firstNonNil es
 
-/-- `commit.Height()` on a fresh commit. -/
+/-- `commit.Height()` on a fresh commit: `memoizeHeightRound` returns early when
+there are no slots or when a positive height is already memoized, else copies
+height and round of the first non-nil precommit (0/0 when all are nil).  A
+non-positive first height is simply re-read on every call, with the same result. -/
 def Commit.height (c : Commit) : Int :=
   match firstNonNil c.precommits with
   | some e => e.height
